@@ -506,6 +506,12 @@ Definition issue_invoice (w : wallet) (slate amount tip : N) (dest : option N) :
   let w3 := with_log (with_outs w2 (save_out (w_outs w2) o)) (save_tx (w_log w2) t) in
   (save_ctx w3 (mkC slate parent [] [(key, None, amount)] amount None None), Ok tt).
 
+Definition ctx_has_inputs (w : wallet) (slate : N) : bool :=
+  match get_ctx w slate with
+  | Some c => match c_ins c with [] => false | _ => true end
+  | None => false
+  end.
+
 (** owner::process_invoice_tx after its internal refresh: the payer selects inputs for the
     invoiced amount; when paying its own invoice the two contexts are merged *)
 Definition process_invoice (w0 : wallet) (slate ttl : N) (src : option N) (p0 : params)
@@ -522,6 +528,9 @@ Definition process_invoice (w0 : wallet) (slate ttl : N) (src : option N) (p0 : 
                (w_log w0) with
     | Some t => (w0, Err (if ttype_eqb (t_type t) TSent then EAlreadyReceived else EWasCancelled))
     | None =>
+    (* a stored context that already names inputs is the payer's own from an earlier run of
+       this step: refused before anything else happens (the C03 [fix:]) *)
+    if ctx_has_inputs w0 slate then (w0, Err EAlreadyReceived) else
     (* the sender always refreshes its outputs first (add_inputs_to_slate) *)
     let w := refresh w0 parent false tip pres km in
       let p := mkParams (p_amount p0) false (p_h p0) (p_minconf p0) (p_max_outputs p0)
